@@ -13,12 +13,15 @@ Definition eAction (a : action) : list Z := [index_of action_beq a all_actions].
 
 Definition st_with_version (v : Z) : status := mkStatus PhRunning 0 v 0 c0 0 [] true false.
 
+(* a delayed action that expires is judged like a policy-triggered request *)
+Definition timer_req : req := mkReq ENone None None None 0 0 1.
+
 (* walk an observed trace: obs0, then one obs per op *)
 Fixpoint law_trace (sp : spec) (ops : list op) (b : obs) (rest : list obs) : bool :=
   match ops, rest with
   | [], [] => true
   | o :: ops', a :: rest' =>
-      (match o with OReq r _ => law_step sp r b a | _ => true end) && law_trace sp ops' a rest'
+      (match o with OReq r _ => law_step sp r b a | OFire => law_step sp timer_req b a | _ => true end) && law_trace sp ops' a rest'
   | _, _ => false
   end.
 
@@ -26,7 +29,7 @@ Fixpoint law_trace (sp : spec) (ops : list op) (b : obs) (rest : list obs) : boo
 Fixpoint law_trace_flags (sp : spec) (ops : list op) (b : obs) (rest : list obs) : list Z :=
   match ops, rest with
   | o :: ops', a :: rest' =>
-      (match o with OReq r _ => eBool (law_step sp r b a) | _ => [1] end) ++ law_trace_flags sp ops' a rest'
+      (match o with OReq r _ => eBool (law_step sp r b a) | OFire => eBool (law_step sp timer_req b a) | _ => [1] end) ++ law_trace_flags sp ops' a rest'
   | _, _ => []
   end.
 
@@ -39,7 +42,8 @@ Definition entry (sel : Z) (toks : list Z) : list Z :=
   | 1 => match run_dec dHistory toks with
          | Some h => run_history h | None => bad_input end
   | 2 => match run_dec (let* sp := dSpec in let* v := dZ in let* rf := dReq in ret (sp, v, fst rf)) toks with
-         | Some (sp, v, r) => eAction (apply_policies sp (st_with_version v) r) | None => bad_input end
+         | Some (sp, v, r) => let ad := apply_policies_d sp (st_with_version v) r in eAction (fst ad) ++ eBool (snd ad)
+         | None => bad_input end
   | 101 => match run_dec (let* h := dHistory in let* o0 := dObs in
                           let* os := dRep (length (h_ops h)) dObs in ret (h, o0, os)) toks with
            | Some (h, o0, os) => eBool (law_trace (h_spec h) (h_ops h) o0 os) | None => bad_input end
